@@ -198,6 +198,26 @@ def route_cases(tier, seed0):
                                "state_class": "small-int", "script": sc, "route": "cgmap", "cgmap": m, "progress": bool(k % 2)}
 
 
+def mutate_cases(tier, seed0):
+    """Set-up, then the caller's script object is given a smaller system (and a shorter request list) before the run and
+    get_output(): 3 engines x 3 spaces x 3 sampling entries x 2 edits."""
+    sp = dict(spaces("thorough"))
+    k = 0
+    for engine in ("euler", "tauleap", "gillespie"):
+        for spname in ("grid3x2x1:ppp", "grid2x2x2:rrr", "graph-k4"):
+            space = sp[spname]
+            n = len(space["nodes"]) if space["type"] == "graph" else space["w"] * space["h"] * space["d"]
+            for pol, samp in (SAMPLING[0], SAMPLING[6], SAMPLING[7]):
+                for mut in ("system", "system+requests"):
+                    k += 1
+                    spec = {"species": [{"label": "AB"[q], "D": [0.5, 0.25][q]} for q in range(2)], "reactions": REACTIONS[1],
+                            "envs": ["e0", "e1"], "space": space, "state": state_for("small-int", 2, n)}
+                    sc = {"system": spec, "time_step": 0.125, "policy": pol, "seed": 1000 * seed0 + k % 3, "isp": "auto"}
+                    sc.update(samp)
+                    yield {"sub": "shape", "engine": engine, "space": spname + ":script-edited-after-setup", "state_class": "small-int",
+                           "script": sc, "mutate": mut}
+
+
 def pinned_cases():
     """Inputs of recorded known findings are kept in the catalogue explicitly so that the finding stays visible."""
     spec = {"species": [{"label": "A", "D": 0.5}, {"label": "B", "D": 0.0}],
@@ -226,6 +246,16 @@ def run_script(case, variant):
             o = simulate_script(script, e, **kw)
         return (o.t.value.tobytes(), o.data.value.tobytes(), -1)
     e.setup(script)
+    if case.get("mutate"):
+        # the caller goes on using ITS script object after the set-up (another, smaller system; another request list):
+        # the running simulation and its output buffers belong to the engine
+        spec = case["script"]["system"]
+        ns = len(spec["species"])
+        small = dict(spec, space={"type": "grid", "w": 1, "h": 1, "d": 1, "bc": {}, "env": [0], "vol": 1.0}, state=[1.0] * ns)
+        small.pop("chemostats", None)
+        script.system = models.build_system(small)
+        if case["mutate"] == "system+requests":
+            script.t_sample = [0]
     n = 0
     while n < 400 and e.iterate():
         n += 1
@@ -481,7 +511,7 @@ def run(ctx):
     # the sanitized build costs 5-10x the plain one: the lifecycle sub-spaces are explored one level less deep than in C10
     hjobs, subs = c10.build_jobs(ctx.tier, ctx.seed, d1=4 if ctx.tier == "quick" else 5, d2=3 if ctx.tier == "quick" else 4,
                                  dlm=4 if ctx.tier == "quick" else 5, light=True)
-    sc = list(shape_cases(ctx.tier, ctx.seed)) + list(bignet_cases(ctx.tier, ctx.seed)) + list(route_cases(ctx.tier, ctx.seed)) + list(pinned_cases())
+    sc = list(shape_cases(ctx.tier, ctx.seed)) + list(bignet_cases(ctx.tier, ctx.seed)) + list(route_cases(ctx.tier, ctx.seed)) + list(mutate_cases(ctx.tier, ctx.seed)) + list(pinned_cases())
     _JOBS = [("shape", c) for c in sc] + hjobs
     ctx.sample(sc[len(sc) // 2])
     for j in hjobs[40:42] + hjobs[-1:]:
@@ -528,7 +558,7 @@ def run(ctx):
                     "/".join("0x%02x" % f for f in FILLS)), len(fc), len(fc), exhaustive=True)
     ctx.subspace("script-shape catalogue on the sanitized build (3 engines x %d spaces x 9 sampling entries x 4 processing modes x "
                  "5 state classes, diagonal sub-lattice%s; + 3 engines x 8 larger network shapes (orders 4-6, coefficient 5, 5 species x 6 "
-                 "reactions, 3 and 5 environments) x 3 spaces x state classes) each compared with the plain build"
+                 "reactions, 3 and 5 environments) x 3 spaces x state classes; + simulate_script routes; + 54 runs whose script object is given a smaller system after the set-up) each compared with the plain build"
                  % (len(spaces(ctx.tier)), " 1/5" if ctx.tier == "quick" else " 1/2"), len(sc), len(sc) if done == len(_JOBS) else 0,
                  exhaustive=(done == len(_JOBS)))
     ctx.add(states=0)
